@@ -397,6 +397,7 @@ pub const CLASSES: &[&str] = &[
     "language-rust", "language-", "language", "lang", "Language-x", "foo", "language-a language-b", "x language-c",
     "language-c  y", " language-d ", "a\tb", "a\u{a0}b", "a\u{2003}language-x", "", " ", "ab", "b", "a", "lang1", "langs",
     "language-\u{e9}", "\u{e9}", "language-x*", "*", "?", "a\u{85}b", "a\u{200b}b", "a\u{c}language-q",
+    "language-rust\tmx-injected", "language-a\nevil", "language-b\u{c}evil", "language-c\revil", "language-d\u{2003}evil",
 ];
 
 pub const ATTR_POOL: &[(&str, &[&str])] = &[
